@@ -311,12 +311,45 @@ fn compress_case<K: Kmer + Send + Sync>(c: &mut Case, gc: &GCase, which: Which) 
 
 pub const RULE_GRAPH: &str = "case = seeded hostile read set (1-8 reads from: random over 1-4 letter alphabets, copies, reverse complements, sub-reads, tandem repeats with unit <= K, hairpins, palindromic repeats, homopolymers, SNP variants, too-short and empty reads) x K type (17 types, K=4..64, small K weighted 70%) x stranded x threshold 1-3 x join predicate; distinct = hash of (K, stranded, threshold, reads); non-trivial = at least one merged node AND at least one of: palindromic key, repeated k-mer, threshold-rejected k-mer, branching k-mer";
 
+/// large-scale read sets: a random genome with planted (reverse-complemented) repeats, tiled by
+/// overlapping reads on both strands, K = 20..32
+pub fn gen_large_gcase(c: &mut Case) -> GCase {
+    let kidx = *c.rng.pick(&[9usize, 10, 12, 13]);
+    let glen = 20_000 + c.rng.below(60_000);
+    let genome = crate::gen::gen_genome(&c.rng, glen, 30, 50);
+    let mut reads = Vec::new();
+    let mut pos = 0;
+    while pos + 40 < genome.len() {
+        let len = 60 + c.rng.below(200);
+        let end = (pos + len).min(genome.len());
+        let r = genome[pos..end].to_vec();
+        reads.push(if c.rng.chance(1, 2) { rc(&r) } else { r });
+        pos += 10 + c.rng.below(80);
+    }
+    GCase {
+        kidx,
+        stranded: c.rng.chance(1, 3),
+        thr: c.rng.range(1, 3),
+        reads,
+        by_colour: c.rng.chance(1, 2),
+        ncol: 3,
+        salt: c.rng.next(),
+    }
+}
+
 pub fn run_c01(ctx: &Ctx) {
     let n = ctx.n(60_000, 3_000_000);
     ctx.run_group("compress", n, false, |c| {
         let gc = gen_gcase(c);
         with_graph_k!(gc.kidx, K => compress_case::<K>(c, &gc, Which::Lossless))
     });
+    if ctx.tier == crate::runner::Tier::Thorough && !ctx.is_miri() {
+        ctx.run_group("compress_large", ctx.n(4, 200), false, |c| {
+            let gc = gen_large_gcase(c);
+            c.count("large_cases", 1);
+            with_graph_k!(gc.kidx, K => compress_case::<K>(c, &gc, Which::Lossless))
+        });
+    }
     if !ctx.is_miri() {
         ctx.require("merged_nodes", 100);
         ctx.require("cases_with_palindromes", 10);
@@ -331,6 +364,13 @@ pub fn run_c02(ctx: &Ctx) {
         let gc = gen_gcase(c);
         with_graph_k!(gc.kidx, K => compress_case::<K>(c, &gc, Which::Maximal))
     });
+    if ctx.tier == crate::runner::Tier::Thorough && !ctx.is_miri() {
+        ctx.run_group("maximal_large", ctx.n(4, 200), false, |c| {
+            let gc = gen_large_gcase(c);
+            c.count("large_cases", 1);
+            with_graph_k!(gc.kidx, K => compress_case::<K>(c, &gc, Which::Maximal))
+        });
+    }
     if !ctx.is_miri() {
         ctx.require("join_tests_logged", 100);
         ctx.require("join_tests_refused", 10);
@@ -727,6 +767,13 @@ pub fn run_c03(ctx: &Ctx) {
         let gc = gen_gcase(c);
         with_graph_k!(gc.kidx, K => c03_case::<K>(c, &gc))
     });
+    if ctx.tier == crate::runner::Tier::Thorough && !ctx.is_miri() {
+        ctx.run_group("edges_large", ctx.n(2, 50), false, |c| {
+            let gc = gen_large_gcase(c);
+            c.count("large_cases", 1);
+            with_graph_k!(gc.kidx, K => c03_case::<K>(c, &gc))
+        });
+    }
     // hand-built graphs: arbitrary node sequences, every k-mer queried
     let nh = ctx.n(20_000, 1_000_000);
     ctx.run_group("handbuilt", nh, false, |c| {
